@@ -78,3 +78,8 @@ register("C15", ["c15"],
          "The numeric clause (at most b + T/r + 1 permits per window, arrival-order service under every interleaving) quantifies over runtime values and schedules and is NOT decided. This check decides the structural mechanisms that are necessary for it: acquire reserves permits only after its last cancellation point and under the fair mutex held from lock to reservation; limiter state has exactly three writers and permits are consumed only in Permit::drop after refreshing; every OPEN is preceded by a limiter permit in its iteration; handlers run only in tasks spawned after a stream reservation from a queue of R::INFLIGHT streams, one request per stream; every production server/client is created with the rate of its own RPC kind; a request above the burst never returns; and the deadline arithmetic is pinned to its formulas (start + duration_or_max(refresh*need), quotient and remainder of the same nanosecond count).",
          ["tokio Mutex is FIFO-fair as documented", "the ctx clock is monotone"],
          TRUSTED)
+
+register("C09", ["c09"],
+         "The value-level clause decode(encode(v)) == v for every value cannot be decided statically and is NOT claimed. Decided structural necessary conditions: every proto field written by build() is consumed by read() for all ProtoFmt/ProtoRepr impls; no hashed-container iteration order reaches an encoding (found and repaired F8); no narrowing casts in codecs; all hashes/signatures are Keccak256 of the canonical encoding and encode = canonical; the canonicaliser orders fields by tag, rejects repeated singular fields and recurses; code generation is gated by the schema's canonical check; and a census pins the conversions used inside decoders/encoders to a reviewed value-preserving set.",
+         ["prost / quick_protobuf encode and decode the wire format correctly", "reviewed conversions in tables/codec_api.json are value preserving"],
+         TRUSTED)
